@@ -97,6 +97,24 @@ def main():
     for f in os.listdir(os.path.join(GEN, 'Maps')):
         if f.endswith('.v') and f not in wanted:
             os.remove(os.path.join(GEN, 'Maps', f))
+    # every <regex> text occurring in a map, translated to the regex AST (fail-closed)
+    import re as _re
+    import regexes as _rx
+    texts = []
+    for fn in files:
+        root = et.parse(os.path.join(MAPDIR, fn)).getroot()
+        for r in root.iter('regex'):
+            if r.text and r.text not in texts:
+                texts.append(r.text)
+    rout = [HEADER % ('pyx12/map/*.xml (<regex> texts)', 'tools/gen/maps.py')]
+    rout.append('From PX.Lib Require Import Base Regex.\n\n')
+    from common import coq_str
+    items = []
+    for t in sorted(texts):
+        items.append('(%s, %s)' % (coq_str(t), _rx.translate(t, _re.S)))
+    rout.append('(* element_if compiles these with re.compile(text, re.S) and uses rec.search(value) *)\n')
+    rout.append('Definition map_regexes : list (str * re) :=\n  [%s].\n' % ';\n   '.join(items))
+    write_if_changed(os.path.join(GEN, 'MapRegexes.v'), ''.join(rout))
     out = [HEADER % ('pyx12/map/ (directory listing)', 'tools/gen/maps.py')]
     out.append('From Coq Require Import String.\nFrom PX.Lib Require Import Base Xml.\n')
     out.append('(* the file names present in the map directory, in sorted order *)\n')
